@@ -226,8 +226,11 @@ def gen_history(rnd, nops, geo, strkind=None, ops_weights=None, obs_every=1, nul
             return False
         return (b in subtree(a)) or (a in subtree(b))
 
-    def strk():
-        return strkind if strkind else rnd.choice(STR_COPY_KINDS)
+    def strk(b=b""):
+        if strkind:
+            # kind-comparison histories (C14): zero-terminated source kinds cannot carry a NUL, those strings go through std::string
+            return "sc" if (strkind in ("sp", "sjl") and b"\x00" in b) else strkind
+        return rnd.choice(STR_COPY_KINDS)
 
     def pick(U, kind=None):
         """a usable reference, preferably one that designates a container of the wanted kind"""
@@ -269,7 +272,8 @@ def gen_history(rnd, nops, geo, strkind=None, ops_weights=None, obs_every=1, nul
         if k == "sl":
             return k, str(rnd.randrange(len(LIT)))
         if k == "sc":
-            return strk(), (rnd.choice([b"hi", b"", b"a\x00b" if nul_ok else b"a0b", b"lit0", b"\xc3\xa9", b"123", b"x" * 40, b"-4.5e2", b"key", b"\xff\x80"]).hex() or "-")
+            b = rnd.choice([b"hi", b"", b"a\x00b" if nul_ok else b"a0b", b"lit0", b"\xc3\xa9", b"123", b"x" * 40, b"-4.5e2", b"key", b"\xff\x80", b"a", b"a\x00" if nul_ok else b"a0", b"12"])
+            return strk(b), (b.hex() or "-")
         if k == "sjl":
             return k, rnd.choice([b"hi", b"lit0", b"123", b"zz\xc3\xa9"]).hex()
         if k == "raw":
